@@ -11,6 +11,12 @@
      the server / the interposed connect() / the caller observed.  A rejection is re-run alone before it is reported.
      A difference between the model's prediction and the observed outcome is model drift (note), never a violation.
   4. thorough: the fault position sweeps every byte offset of the request and of the response.
+  Surplus bytes are delivered at every arrival point: in the write that ends the response - as one write, after the header
+  block was read (headers | body+surplus) and after part of the body (headers+part | rest+surplus | surplus), for
+  Content-Length, chunked and bodyless framing (strong reading: NoReuse) - and where the client cannot see them while it
+  frames the response: in a segment of its own after the complete response, and while the connection sits in the cache (a
+  complete foreign response or junk, delivered on the driver's signal after the call returned and consumed by the client's
+  engine before the next request is issued).  For the latter the weaker reading OwnResponse applies (see HttpRetryTrace.tla).
 """
 import os, json, re, time, concurrent.futures as cf
 import vf
@@ -81,9 +87,9 @@ def configs(thorough):
         dict(name="single2", callers=[1], nreq=1, methods=["GET", "POST"], budgets=[2], steps=SEQ2, oktail=[OK],
              maxfk=2, reuse=True, idle=False, take=q(120, None)),
         dict(name="seq2", callers=[1], nreq=2, methods=["GET", "POST"], budgets=[0, 1], steps=SEQ2, oktail=[OK],
-             maxfk=1, reuse=True, idle=False, take=q(500, 5000)),
+             maxfk=1, reuse=True, idle=False, take=q(400, 5000)),
         dict(name="seq3", callers=[1], nreq=3, methods=["GET", "POST"], budgets=[1], steps=SEQ3, oktail=[OK],
-             maxfk=1, reuse=True, idle=False, take=q(250, 3000)),
+             maxfk=1, reuse=True, idle=False, take=q(200, 3000)),
         dict(name="noreuse", callers=[1], nreq=2, methods=["GET", "POST"], budgets=[0, 1], steps=NOREUSE, oktail=[OK],
              maxfk=1, reuse=False, idle=False, take=q(40, None)),
         dict(name="idle", callers=[1], nreq=2, methods=["GET", "POST"], budgets=[1], steps=IDLE, oktail=[OK],
